@@ -5,10 +5,11 @@
     model - and the code, see DESIGN.md - does after a reported failure. *)
 From Verif Require Import Json Outcome State StateSpec DurableSpec DurableReach DurableFail DurableReload LocExamples.
 
-(** With the cron hooks installed, a linear-state add that the hook rejects has
-    already written its record: the operation reports an error, the memory
-    does not hold the fact, the storage does (it reappears after a reload). *)
-Definition hook_reject_leaves_residue_refuted := hook_reject_leaves_residue_counterexample.
+(** With the cron hooks installed, an add that the hook rejects leaves nothing
+    behind in either state kind (the history that exhibited D33 - the linear
+    state wrote the record before it asked the hook - replayed on the repaired
+    model; the theorem is C06.hook_reject_leaves_no_residue). *)
+Definition hook_reject_leaves_no_residue_witness := hook_reject_leaves_no_residue_example.
 (** An indexed-state add whose storage write fails reports the error but keeps
     the new value in memory (the storage keeps the old one). *)
 Definition failed_add_modifies_memory_refuted := failed_add_modifies_memory_counterexample.
